@@ -1,576 +1,6 @@
 ------------------------------ MODULE Grammar ------------------------------
-(***************************************************************************)
-(* Temporal ISO 8601 / RFC 9557 string grammar.                             *)
-(*  Part 1  text helpers, character classes                                 *)
-(*  Part 2  character-level RECOGNIZER over arrays of 1-character strings   *)
-(*          (non-ASCII / control characters travel as tokens "U+XXXX"):     *)
-(*          productions (date, time, offset, annotations, duration, ...),   *)
-(*          then the per-type rules:  Outcome(goal, c), Accepts, Value.     *)
-(*  Part 3  token-level GENERATOR state machine (Grammar_gen section):      *)
-(*          actions append optional parts; at most Budget deviations from   *)
-(*          the canonical form, at most one of them a catalogued mutation.  *)
-(* The recognizer follows the proposal text, not the ixdtf crate.           *)
-(***************************************************************************)
-EXTENDS Integers, Sequences, FiniteSets, TLC, Gregorian, TemporalBase
-
-(* ======================= Part 1: text helpers ======================= *)
-Chars(s) == [i \in 1..Len(s) |-> SubSeq(s, i, i)]
-RECURSIVE Join(_)
-Join(cs) == IF cs = <<>> THEN "" ELSE cs[1] \o Join(Tail(cs))
-MinOf(S) == CHOOSE x \in S : \A y \in S : x <= y
-RECURSIVE SortedSeq(_)
-SortedSeq(S) == IF S = {} THEN <<>> ELSE LET x == MinOf(S) IN <<x>> \o SortedSeq(S \ {x})
-
-P10 == <<1, 10, 100, 1000, 10000, 100000, 1000000, 10000000, 100000000, 1000000000>>
-Pow10I(k) == P10[k + 1]
-\* decimal text of n >= 0 left-padded with zeros to width w
-RECURSIVE PadN(_, _)
-PadN(n, w) == IF w <= 1 /\ n < 10 THEN ToString(n) ELSE PadN(n \div 10, w - 1) \o ToString(n % 10)
-Pad2(n) == PadN(n, 2)
-
-Digit == {"0", "1", "2", "3", "4", "5", "6", "7", "8", "9"}
-DVal == [x \in Digit |-> CASE x = "0" -> 0 [] x = "1" -> 1 [] x = "2" -> 2 [] x = "3" -> 3 [] x = "4" -> 4
-                           [] x = "5" -> 5 [] x = "6" -> 6 [] x = "7" -> 7 [] x = "8" -> 8 [] x = "9" -> 9]
-LowerSeq == <<"a","b","c","d","e","f","g","h","i","j","k","l","m","n","o","p","q","r","s","t","u","v","w","x","y","z">>
-UpperSeq == <<"A","B","C","D","E","F","G","H","I","J","K","L","M","N","O","P","Q","R","S","T","U","V","W","X","Y","Z">>
-Lower == {LowerSeq[i] : i \in 1..26}
-Upper == {UpperSeq[i] : i \in 1..26}
-Alpha == Lower \cup Upper
-LowFn == [x \in Upper |-> LowerSeq[CHOOSE i \in 1..26 : UpperSeq[i] = x]]
-LowCh(x) == IF x \in Upper THEN LowFn[x] ELSE x
-LowSeq(cs) == [i \in 1..Len(cs) |-> LowCh(cs[i])]
-
-TZLead == Alpha \cup {".", "_"}
-TZChar == TZLead \cup Digit \cup {"-", "+"}
-AKeyLead == Lower \cup {"_"}
-AKeyChar == AKeyLead \cup Digit \cup {"-"}
-AValChar == Alpha \cup Digit
-MinusSign == "U+2212"      \* proposal revisions differ on U+2212 as a sign: nothing is asserted for strings containing it
-
-\* calendars: identifiers Calendar::from_str accepts today; aliases / ids on which revisions differ are unasserted
-KnownCalSeq == <<"iso8601", "gregory", "japanese", "buddhist", "chinese", "coptic", "dangi", "ethioaa", "ethiopic", "hebrew",
-                 "indian", "islamic", "islamic-civil", "islamic-tbla", "islamic-umalqura", "persian", "roc", "japanext">>
-KnownCals == {KnownCalSeq[i] : i \in 1..Len(KnownCalSeq)}
-AliasCals == {"islamicc", "gregorian", "ethiopic-amete-alem", "islamic-rgsa", "julian"}
-KnownCalChars == {Chars(k) : k \in KnownCals}
-AliasCalChars == {Chars(k) : k \in AliasCals}
-UCa == <<"u", "-", "c", "a">>
-
-(* ======================= Part 2: recognizer ======================= *)
-Fail(w) == [ok |-> FALSE, why |-> w, late |-> FALSE]
-\* a failure after the date/time part was read completely (annotations, ambiguity rule): the production did apply
-Late(f) == [f EXCEPT !.late = TRUE]
-Ch(c, i) == IF i >= 1 /\ i <= Len(c) THEN c[i] ELSE ""
-IsD(c, i) == Ch(c, i) \in Digit
-N2(c, i) == IF IsD(c, i) /\ IsD(c, i + 1) THEN DVal[c[i]] * 10 + DVal[c[i + 1]] ELSE -1
-RECURSIVE DV(_, _, _)
-DV(c, a, b) == IF b < a THEN 0 ELSE DV(c, a, b - 1) * 10 + DVal[c[b]]        \* at most 9 digits
-RECURSIVE Run(_, _)
-Run(c, k) == IF IsD(c, k) THEN 1 + Run(c, k + 1) ELSE 0                      \* length of the digit run starting at k
-RECURSIVE BigDigits(_, _, _)
-BigDigits(c, a, b) == IF b < a THEN Zero ELSE Add(MulSmall(BigDigits(c, a, b - 1), 10), FromInt(DVal[c[b]]))
-
-\* DateYear: four digits, or sign + six digits (not -000000)
-YearAt(c, i) ==
-  IF Ch(c, i) \in {"+", "-"} THEN
-    IF \A k \in 1..6 : IsD(c, i + k) THEN
-      LET v == DV(c, i + 1, i + 6)
-      IN IF c[i] = "-" /\ v = 0 THEN Fail("negative-zero-year")
-         ELSE [ok |-> TRUE, j |-> i + 7, y |-> IF c[i] = "-" THEN -v ELSE v, six |-> TRUE]
-    ELSE Fail("year-digits")
-  ELSE IF \A k \in 0..3 : IsD(c, i + k) THEN [ok |-> TRUE, j |-> i + 4, y |-> DV(c, i, i + 3), six |-> FALSE]
-  ELSE Fail("year-digits")
-
-\* Date: DateYear [-] MM [-] DD, both separators or none; day valid for the month of that year
-DateAt(c, i) ==
-  LET yr == YearAt(c, i) IN
-  IF ~yr.ok THEN yr ELSE
-  LET ext == Ch(c, yr.j) = "-"
-      mi == IF ext THEN yr.j + 1 ELSE yr.j
-      m == N2(c, mi)
-  IN IF m < 0 THEN Fail("month-digits")
-     ELSE IF m < 1 \/ m > 12 THEN Fail("month-range")
-     ELSE IF ext /\ Ch(c, mi + 2) # "-" THEN Fail(IF IsD(c, mi + 2) THEN "date-separator-mixing" ELSE "date-incomplete")
-     ELSE IF ~ext /\ Ch(c, mi + 2) = "-" THEN Fail("date-separator-mixing")
-     ELSE LET di == IF ext THEN mi + 3 ELSE mi + 2
-              d == N2(c, di)
-          IN IF d < 0 THEN Fail(IF Ch(c, di) = "" THEN "date-incomplete" ELSE "day-digits")
-             ELSE IF d < 1 \/ d > 31 THEN Fail("day-range")
-             ELSE IF d > DIM(yr.y, m) THEN Fail("day-exceeds-month")
-             ELSE [ok |-> TRUE, j |-> di + 2, y |-> yr.y, m |-> m, d |-> d, ext |-> ext]
-
-NoFrac(k) == [ok |-> TRUE, j |-> k, has |-> FALSE, fr |-> 0, nd |-> 0]
-\* optional fraction: . or , followed by 1..9 digits; value in units of 10^-9
-FracAt(c, k) ==
-  IF Ch(c, k) \notin {".", ","} THEN NoFrac(k)
-  ELSE LET n == Run(c, k + 1)
-       IN IF n = 0 THEN Fail("fraction-no-digits")
-          ELSE IF n > 9 THEN Fail("fraction-over-9-digits")
-          ELSE [ok |-> TRUE, j |-> k + 1 + n, has |-> TRUE, fr |-> DV(c, k + 1, k + n) * Pow10I(9 - n), nd |-> n]
-
-TimeRec(j, h, mi, s, f, form) == [ok |-> TRUE, j |-> j, h |-> h, mi |-> mi, s |-> s, fr |-> f.fr, hasfr |-> f.has, form |-> form]
-\* Time: HH | HH:MM | HHMM | HH:MM:SS[frac] | HHMMSS[frac]
-TimeAt(c, i) ==
-  LET h == N2(c, i) IN
-  IF h < 0 THEN Fail("hour-digits")
-  ELSE IF h > 23 THEN Fail(IF h = 24 THEN "hour-24" ELSE "hour-range")
-  ELSE IF Ch(c, i + 2) = ":" THEN
-    LET mi == N2(c, i + 3) IN
-    IF mi < 0 \/ mi > 59 THEN Fail("minute")
-    ELSE IF Ch(c, i + 5) = ":" THEN
-      LET s == N2(c, i + 6) IN
-      IF s < 0 \/ s > 60 THEN Fail("second")
-      ELSE LET f == FracAt(c, i + 8) IN IF ~f.ok THEN f ELSE TimeRec(f.j, h, mi, s, f, "H:M:S")
-    ELSE IF IsD(c, i + 5) THEN Fail("time-separator-mixing")
-    ELSE TimeRec(i + 5, h, mi, 0, NoFrac(0), "H:M")
-  ELSE IF IsD(c, i + 2) THEN
-    LET mi == N2(c, i + 2) IN
-    IF mi < 0 \/ mi > 59 THEN Fail("minute")
-    ELSE IF IsD(c, i + 4) THEN
-      LET s == N2(c, i + 4) IN
-      IF s < 0 \/ s > 60 THEN Fail("second")
-      ELSE LET f == FracAt(c, i + 6) IN IF ~f.ok THEN f ELSE TimeRec(f.j, h, mi, s, f, "HMS")
-    ELSE IF Ch(c, i + 4) = ":" THEN Fail("time-separator-mixing")
-    ELSE TimeRec(i + 4, h, mi, 0, NoFrac(0), "HM")
-  ELSE TimeRec(i + 2, h, 0, 0, NoFrac(0), "H")
-
-OffRec(j, sg, h, m, s, fr, sub, form) ==
-  [ok |-> TRUE, j |-> j, k |-> "num", sg |-> sg, h |-> h, m |-> m, s |-> s, fr |-> fr, sub |-> sub, form |-> form]
-\* numeric UTC offset at i (c[i] is + or -): +HH | +HH:MM | +HHMM | +HH:MM:SS[frac] | +HHMMSS[frac]
-OffAt(c, i) ==
-  LET sg == IF c[i] = "-" THEN -1 ELSE 1
-      h == N2(c, i + 1) IN
-  IF h < 0 \/ h > 23 THEN Fail("offset-hour")
-  ELSE IF Ch(c, i + 3) = ":" THEN
-    LET m == N2(c, i + 4) IN
-    IF m < 0 \/ m > 59 THEN Fail("offset-minute")
-    ELSE IF Ch(c, i + 6) = ":" THEN
-      LET s == N2(c, i + 7) IN
-      IF s < 0 \/ s > 59 THEN Fail("offset-second")
-      ELSE LET f == FracAt(c, i + 9) IN IF ~f.ok THEN Fail("offset-" \o f.why) ELSE OffRec(f.j, sg, h, m, s, f.fr, TRUE, "H:M:S")
-    ELSE IF IsD(c, i + 6) THEN Fail("offset-separator-mixing")
-    ELSE OffRec(i + 6, sg, h, m, 0, 0, FALSE, "H:M")
-  ELSE IF IsD(c, i + 3) THEN
-    LET m == N2(c, i + 3) IN
-    IF m < 0 \/ m > 59 THEN Fail("offset-minute")
-    ELSE IF IsD(c, i + 5) THEN
-      LET s == N2(c, i + 5) IN
-      IF s < 0 \/ s > 59 THEN Fail("offset-second")
-      ELSE LET f == FracAt(c, i + 7) IN IF ~f.ok THEN Fail("offset-" \o f.why) ELSE OffRec(f.j, sg, h, m, s, f.fr, TRUE, "HMS")
-    ELSE IF Ch(c, i + 5) = ":" THEN Fail("offset-separator-mixing")
-    ELSE OffRec(i + 5, sg, h, m, 0, 0, FALSE, "HM")
-  ELSE OffRec(i + 3, sg, h, 0, 0, 0, FALSE, "H")
-NoOff(j) == [ok |-> TRUE, j |-> j, k |-> "none"]
-ZOff(j) == [ok |-> TRUE, j |-> j, k |-> "z"]
-\* optional DateTimeUTCOffset at i
-AnyOffAt(c, i) == IF Ch(c, i) \in {"Z", "z"} THEN ZOff(i + 1)
-                  ELSE IF Ch(c, i) \in {"+", "-"} THEN OffAt(c, i) ELSE NoOff(i)
-OffMinutes(o) == o.sg * (o.h * 60 + o.m)
-OffsetText(min) == (IF min < 0 THEN "-" ELSE "+") \o Pad2(AbsI(min) \div 60) \o ":" \o Pad2(AbsI(min) % 60)
-
-(* ---- annotations ---- *)
-RECURSIVE FindClose(_, _)
-FindClose(c, k) == IF k > Len(c) THEN 0 ELSE IF c[k] = "]" THEN k ELSE FindClose(c, k + 1)
-RECURSIVE Groups(_, _)
-\* bracket groups from p on, and what stops the sequence ("" = end of input)
-Groups(c, p) ==
-  IF p > Len(c) THEN [gs |-> <<>>, tail |-> ""]
-  ELSE IF c[p] # "[" THEN [gs |-> <<>>, tail |-> IF Len(c[p]) > 1 THEN "non-ascii" ELSE "trailing-junk"]
-  ELSE LET q == FindClose(c, p + 1) IN
-       IF q = 0 THEN [gs |-> <<>>, tail |-> "annotation-unclosed"]
-       ELSE LET r == Groups(c, q + 1) IN [gs |-> <<[a |-> p + 1, b |-> q - 1]>> \o r.gs, tail |-> r.tail]
-
-KeyOK(c, a, b) == a <= b /\ c[a] \in AKeyLead /\ \A k \in (a + 1)..b : c[k] \in AKeyChar
-ValOK(c, a, b) == /\ a <= b
-                  /\ \A k \in a..b : c[k] \in AValChar \cup {"-"}
-                  /\ c[a] # "-" /\ c[b] # "-"
-                  /\ \A k \in a..(b - 1) : ~(c[k] = "-" /\ c[k + 1] = "-")
-NameOK(c, a, b) == /\ a <= b
-                   /\ \A k \in a..b : c[k] \in TZChar \cup {"/"}
-                   /\ c[a] \in TZLead /\ c[b] # "/"
-                   /\ \A k \in a..(b - 1) : c[k] = "/" => c[k + 1] \in TZLead
-
-\* one bracket group; only the first one may be a time-zone annotation
-Ann(c, g, first) ==
-  LET crit == Ch(c, g.a) = "!"
-      a == IF crit THEN g.a + 1 ELSE g.a
-      b == g.b
-      eqs == {k \in a..b : c[k] = "="}
-  IN IF a > b THEN Fail("annotation-empty")
-     ELSE IF eqs # {} THEN
-       LET e == MinOf(eqs) IN
-       IF ~KeyOK(c, a, e - 1) THEN Fail("annotation-key")
-       ELSE IF ~ValOK(c, e + 1, b) THEN Fail("annotation-value")
-       ELSE [ok |-> TRUE, k |-> "kv", key |-> SubSeq(c, a, e - 1), val |-> SubSeq(c, e + 1, b), crit |-> crit]
-     ELSE IF ~first THEN Fail("time-zone-annotation-not-first")
-     ELSE IF c[a] \in {"+", "-"} THEN
-       LET o == OffAt(c, a) IN
-       IF ~o.ok THEN Fail("tz-annotation-" \o o.why)
-       ELSE IF o.j # b + 1 THEN Fail("tz-annotation-offset-junk")
-       ELSE IF o.sub THEN Fail("tz-annotation-sub-minute-offset")
-       ELSE [ok |-> TRUE, k |-> "tz", tzk |-> "offset", min |-> OffMinutes(o), crit |-> crit, form |-> o.form]
-     ELSE IF ~NameOK(c, a, b) THEN Fail("tz-annotation-name")
-     ELSE [ok |-> TRUE, k |-> "tz", tzk |-> "name", id |-> SubSeq(c, a, b), crit |-> crit]
-
-\* a hyphen-separated component of one character inside a longer annotation value
-OneCharComponent(v) == Len(v) > 1 /\ \E k \in 1..Len(v) : v[k] # "-" /\ (k = 1 \/ v[k - 1] = "-") /\ (k = Len(v) \/ v[k + 1] = "-")
-NoTz == [k |-> "none"]
-\* everything from position p to the end: [tz annotation] annotations*; calendar = first u-ca (lower-cased), <<>> if none
-AnnotsAt(c, p) ==
-  LET g == Groups(c, p)
-      n == Len(g.gs)
-      as == [k \in 1..n |-> Ann(c, g.gs[k], k = 1)]
-      bad == {k \in 1..n : ~as[k].ok}
-  IN IF bad # {} THEN as[MinOf(bad)]          \* failures are reported in reading order
-     ELSE IF g.tail # "" THEN Fail(g.tail) ELSE
-     LET cals == {k \in 1..n : as[k].k = "kv" /\ as[k].key = UCa}
-         unk == {k \in 1..n : as[k].k = "kv" /\ as[k].key # UCa}
-     IN IF \E k \in unk : as[k].crit THEN Fail("unknown-critical-annotation")
-        ELSE IF \E k1, k2 \in cals : k1 # k2 /\ as[k1].crit THEN Fail("calendar-annotations-critical-conflict")
-        ELSE [ok |-> TRUE,
-              tz |-> IF n >= 1 /\ as[1].k = "tz" THEN as[1] ELSE NoTz,
-              cal |-> IF cals = {} THEN <<>> ELSE LowSeq(as[MinOf(cals)].val),
-              ncal |-> Cardinality(cals), nunk |-> Cardinality(unk),
-              k1 |-> \E k \in 1..n : as[k].k = "kv" /\ Len(as[k].key) = 1,
-              v1 |-> \E k \in 1..n : as[k].k = "kv" /\ Len(as[k].val) = 1,
-              vc1 |-> \E k \in 1..n : as[k].k = "kv" /\ OneCharComponent(as[k].val)]
-
-(* ---- the four date/time productions; each returns a parse record R ---- *)
-NoTime == [has |-> FALSE, h |-> 0, mi |-> 0, s |-> 0, fr |-> 0]
-TimeOf(t) == [has |-> TRUE, h |-> t.h, mi |-> t.mi, s |-> t.s, fr |-> t.fr]
-OffOf(o) == IF o.k = "num" THEN [k |-> "num", sg |-> o.sg, h |-> o.h, m |-> o.m, s |-> o.s, fr |-> o.fr, sub |-> o.sub]
-            ELSE [k |-> o.k]
-TzOf(t) == IF t.k = "none" THEN NoTz
-           ELSE IF t.tzk = "offset" THEN [k |-> "offset", min |-> t.min, crit |-> t.crit]
-           ELSE [k |-> "name", id |-> t.id, crit |-> t.crit]
-PRec(form, date, time, off, a, des) ==
-  [ok |-> TRUE, form |-> form, date |-> date, time |-> time, off |-> off, tz |-> TzOf(a.tz), cal |-> a.cal,
-   des |-> des, k1 |-> a.k1, v1 |-> a.v1, vc1 |-> a.vc1]
-
-\* AnnotatedDateTime: Date [sep Time [offset]] annotations
-ParseDT(c) ==
-  LET d == DateAt(c, 1) IN
-  IF ~d.ok THEN d ELSE
-  IF Ch(c, d.j) \in {"T", "t", " "} THEN
-    LET t == TimeAt(c, d.j + 1) IN
-    IF ~t.ok THEN t ELSE
-    LET o == AnyOffAt(c, t.j) IN
-    IF ~o.ok THEN o ELSE
-    LET a == AnnotsAt(c, o.j) IN
-    IF ~a.ok THEN Late(a) ELSE PRec("dt", Date(d.y, d.m, d.d), TimeOf(t), OffOf(o), a, FALSE)
-  ELSE LET a == AnnotsAt(c, d.j) IN
-       IF ~a.ok THEN Late(a) ELSE PRec("dt", Date(d.y, d.m, d.d), NoTime, [k |-> "none"], a, FALSE)
-
-\* DateSpecYearMonth / DateSpecMonthDay spanning exactly c[1..e] (used for the ambiguity rule of time strings)
-IsYMSpan(c, e) == LET yr == YearAt(c, 1) IN
-                  yr.ok /\ LET mi == IF Ch(c, yr.j) = "-" THEN yr.j + 1 ELSE yr.j
-                           IN N2(c, mi) \in 1..12 /\ mi + 1 = e
-IsMDSpan(c, e) == LET m == N2(c, 1)
-                      di == IF Ch(c, 3) = "-" THEN 4 ELSE 3
-                  IN m \in 1..12 /\ N2(c, di) >= 1 /\ N2(c, di) <= DIM(1972, m) /\ di + 1 = e
-
-\* AnnotatedTime: [T] Time [offset] annotations; without T it must not read as a year-month or month-day
-ParseTimeForm(c) ==
-  LET des == Ch(c, 1) \in {"T", "t"}
-      t == TimeAt(c, IF des THEN 2 ELSE 1) IN
-  IF ~t.ok THEN t ELSE
-  LET o == AnyOffAt(c, t.j) IN
-  IF ~o.ok THEN o ELSE
-  LET a == AnnotsAt(c, o.j) IN
-  IF ~a.ok THEN Late(a)
-  ELSE IF ~des /\ IsYMSpan(c, o.j - 1) THEN Late(Fail("time-ambiguous-with-year-month"))
-  ELSE IF ~des /\ IsMDSpan(c, o.j - 1) THEN Late(Fail("time-ambiguous-with-month-day"))
-  ELSE PRec("time", Date(0, 0, 0), TimeOf(t), OffOf(o), a, des)
-
-\* AnnotatedYearMonth: DateYear [-] MM annotations
-ParseYMForm(c) ==
-  LET yr == YearAt(c, 1) IN
-  IF ~yr.ok THEN yr ELSE
-  LET mi == IF Ch(c, yr.j) = "-" THEN yr.j + 1 ELSE yr.j
-      m == N2(c, mi)
-  IN IF m < 0 THEN Fail("month-digits") ELSE IF m < 1 \/ m > 12 THEN Fail("month-range")
-     ELSE LET a == AnnotsAt(c, mi + 2) IN
-          IF ~a.ok THEN Late(a) ELSE PRec("ym", Date(yr.y, m, 1), NoTime, [k |-> "none"], a, FALSE)
-
-\* AnnotatedMonthDay: [--] MM [-] DD annotations (day valid in a leap year)
-ParseMDForm(c) ==
-  LET i0 == IF Ch(c, 1) = "-" /\ Ch(c, 2) = "-" THEN 3 ELSE 1
-      m == N2(c, i0)
-  IN IF m < 0 THEN Fail("month-digits") ELSE IF m < 1 \/ m > 12 THEN Fail("month-range")
-     ELSE LET di == IF Ch(c, i0 + 2) = "-" THEN i0 + 3 ELSE i0 + 2
-              d == N2(c, di)
-          IN IF d < 0 THEN Fail("day-digits") ELSE IF d < 1 \/ d > 31 THEN Fail("day-range")
-             ELSE IF d > DIM(1972, m) THEN Fail("day-exceeds-month")
-             ELSE LET a == AnnotsAt(c, di + 2) IN
-                  IF ~a.ok THEN Late(a) ELSE PRec("md", Date(1972, m, d), NoTime, [k |-> "none"], a, i0 = 3)
-
-(* ---- durations ---- *)
-DurRank(inT, x) == LET u == LowCh(x) IN
-  IF ~inT THEN (CASE u = "y" -> 1 [] u = "m" -> 2 [] u = "w" -> 3 [] u = "d" -> 4 [] OTHER -> 0)
-  ELSE (CASE u = "h" -> 5 [] u = "m" -> 6 [] u = "s" -> 7 [] OTHER -> 0)
-RECURSIVE DurScan(_, _, _, _)
-DurScan(c, i, inT, rank) ==
-  IF i > Len(c) THEN [ok |-> TRUE, ps |-> <<>>]
-  ELSE IF ~inT /\ c[i] \in {"T", "t"} THEN
-    (IF ~IsD(c, i + 1) THEN Fail("duration-T-without-time-part") ELSE DurScan(c, i + 1, TRUE, 4))
-  ELSE LET n == Run(c, i) IN
-    IF n = 0 THEN Fail(IF Len(c[i]) > 1 THEN "non-ascii" ELSE "duration-junk") ELSE
-    LET f == FracAt(c, i + n) IN
-    IF ~f.ok THEN Fail("duration-" \o f.why) ELSE
-    LET r == DurRank(inT, Ch(c, f.j)) IN
-    IF r = 0 THEN Fail("duration-designator")
-    ELSE IF r = rank THEN Fail("duration-unit-repeated")
-    ELSE IF r < rank THEN Fail("duration-unit-order")
-    ELSE IF f.has /\ ~inT THEN Fail("duration-fraction-on-date-unit")
-    ELSE IF f.has /\ f.j < Len(c) THEN Fail("duration-fraction-not-on-last-unit")
-    ELSE LET rest == DurScan(c, f.j + 1, inT, r) IN
-         IF ~rest.ok THEN rest
-         ELSE [ok |-> TRUE, ps |-> <<[r |-> r, v |-> BigDigits(c, i, i + n - 1), fr |-> f.fr, hasfr |-> f.has]>> \o rest.ps]
-
-Two32 == Add(MulSmall(FromInt(65536), 65536), Zero)
-Two53Ns == K9([s |-> 1, l |-> <<992, 5474, 1992, 9007>>])          \* 2^53 seconds in nanoseconds
-DurTotalNs(D) == Add(K9(MulSmall(D.d, 86400)), TimeNs(D))
-DurValid(D) == /\ Lt(Abs(D.y), Two32) /\ Lt(Abs(D.mo), Two32) /\ Lt(Abs(D.w), Two32)
-               /\ Lt(Abs(DurTotalNs(D)), Two53Ns)
-\* split an exact number of nanoseconds (big, >= 0, < 3600e9) into [mi, s, ms, us, ns]
-SplitNs(b) == LET a1 == TruncDivSmall(b, 1000)
-                  a2 == TruncDivSmall(a1.q, 1000)
-                  a3 == TruncDivSmall(a2.q, 1000)
-                  secs == ToInt(a3.q)
-              IN [mi |-> secs \div 60, s |-> secs % 60, ms |-> a3.r, us |-> a2.r, ns |-> a1.r]
-ParseDur(c) ==
-  LET sgn == Ch(c, 1) \in {"+", "-"}
-      i0 == IF sgn THEN 2 ELSE 1 IN
-  IF Ch(c, i0) \notin {"P", "p"} THEN Fail(IF Len(Ch(c, i0)) > 1 THEN "non-ascii" ELSE "duration-designator-P")
-  ELSE IF i0 = Len(c) THEN Fail("duration-empty")
-  ELSE LET sc == DurScan(c, i0 + 1, FALSE, 0) IN
-  IF ~sc.ok THEN sc ELSE
-  LET ps == sc.ps
-      get(r) == LET S == {k \in 1..Len(ps) : ps[k].r = r} IN IF S = {} THEN Zero ELSE ps[MinOf(S)].v
-      fs == {k \in 1..Len(ps) : ps[k].hasfr}
-      fp == IF fs = {} THEN [r |-> 0, fr |-> 0] ELSE ps[MinOf(fs)]
-      sub == IF fp.r = 5 THEN SplitNs(MulSmall(FromInt(fp.fr), 3600))
-             ELSE IF fp.r = 6 THEN SplitNs(MulSmall(FromInt(fp.fr), 60))
-             ELSE SplitNs(FromInt(fp.fr))
-      sg == IF sgn /\ c[1] = "-" THEN -1 ELSE 1
-      S(b) == IF sg = -1 THEN Neg(b) ELSE b
-      D == Dur10(S(get(1)), S(get(2)), S(get(3)), S(get(4)), S(get(5)),
-                 S(IF fp.r = 5 THEN FromInt(sub.mi) ELSE get(6)),
-                 S(IF fp.r \in {5, 6} THEN FromInt(sub.s) ELSE get(7)),
-                 S(FromInt(sub.ms)), S(FromInt(sub.us)), S(FromInt(sub.ns)))
-  IN [ok |-> TRUE, form |-> "dur", dur |-> D, fr |-> fp.r, n |-> Len(ps)]
-
-(* ---- small goals ---- *)
-\* UTC offset string (whole string)
-ParseOffsetStr(c) ==
-  IF Ch(c, 1) \notin {"+", "-"} THEN Fail(IF Len(Ch(c, 1)) > 1 THEN "non-ascii" ELSE "offset-sign")
-  ELSE LET o == OffAt(c, 1) IN
-       IF ~o.ok THEN o ELSE IF o.j # Len(c) + 1 THEN Fail("offset-trailing-junk") ELSE o
-\* month code: M dd [L]
-ParseMonthCode(c) ==
-  IF Len(c) \notin {3, 4} THEN Fail("month-code-length")
-  ELSE IF c[1] # "M" THEN Fail("month-code-M")
-  ELSE IF N2(c, 2) < 0 THEN Fail("month-code-digits")
-  ELSE IF Len(c) = 4 /\ c[4] # "L" THEN Fail("month-code-L")
-  ELSE [ok |-> TRUE, n |-> N2(c, 2), leap |-> Len(c) = 4]
-
-(* ======================= per-type rules ======================= *)
-Types == {"PlainDate", "PlainDateTime", "PlainTime", "PlainYearMonth", "PlainMonthDay", "Instant", "ZonedDateTime", "Duration"}
-Accept(v) == [kind |-> "ok", val |-> v, why |-> ""]
-AcceptNoVal(w) == [kind |-> "ok", why |-> w]              \* accepted; the value is outside what this specification computes
-Reject(w) == [kind |-> "range", why |-> w]
-Unasserted(w) == [kind |-> "any", why |-> w]
-
-CalStatus(R) == IF R.cal = <<>> \/ R.cal \in KnownCalChars THEN "known"
-                ELSE IF R.cal \in AliasCalChars THEN "alias" ELSE "unknown"
-CalId(R) == IF R.cal = <<>> THEN "iso8601" ELSE CHOOSE k \in KnownCals : Chars(k) = R.cal
-IsIso(R) == R.cal = <<>> \/ R.cal = Chars("iso8601")
-
-Sec(t) == IF t.s = 60 THEN 59 ELSE t.s                   \* a leap second reads as :59
-Sod(t) == t.h * 3600 + t.mi * 60 + Sec(t)
-TimeVal(t) == [h |-> t.h, mi |-> t.mi, s |-> Sec(t), ms |-> t.fr \div 1000000, us |-> (t.fr \div 1000) % 1000, ns |-> t.fr % 1000]
-DateTimeInRange(n, t) == (n > MinDay /\ n <= MaxDay) \/ (n = MinDay /\ (Sod(t) > 0 \/ t.fr > 0))
-YMInRange(y, m) == (y > -271821 \/ (y = -271821 /\ m >= 4)) /\ (y < 275760 \/ (y = 275760 /\ m <= 9))
-
-NsMaxInstant == K9(MulSmall(FromInt(100000000), 86400))
-\* exact epoch nanoseconds of (day number n, second of day sod, ns) shifted back by (offsec seconds, offns)
-EpochNs(n, sod, ns, offsec, offns) ==
-  Add(K9(Add(MulSmall(FromInt(n), 86400), FromInt(sod - offsec))), FromInt(ns - offns))
-InstantOK(b) == Le(Abs(b), NsMaxInstant)
-OffSec(o) == o.sg * (o.h * 3600 + o.m * 60 + o.s)
-OffNs(o) == o.sg * o.fr
-
-\* first form that matches, for goals with two productions; the reported reason of a double failure is the
-\* date-time one when the string starts like a full date, otherwise the short form's
-TwoForms(short, c) == IF short.ok THEN short
-                      ELSE LET dt == ParseDT(c) IN
-                           IF dt.ok THEN dt ELSE IF DateAt(c, 1).ok THEN dt ELSE short
-
-HasMinus(c) == \E k \in 1..Len(c) : c[k] = MinusSign
-NonAscii(c) == \E k \in 1..Len(c) : Len(c[k]) > 1
-
-DateOutcome(R) ==
-  IF R.off.k = "z" THEN Reject("utc-designator-on-plain-type")
-  ELSE IF CalStatus(R) = "alias" THEN Unasserted("calendar-alias")
-  ELSE IF CalStatus(R) = "unknown" THEN Reject("unknown-calendar")
-  ELSE IF ~InDateRange(DFC(R.date)) THEN Reject("date-outside-limits")
-  ELSE Accept([y |-> R.date.y, m |-> R.date.m, d |-> R.date.d, cal |-> CalId(R)])
-DateTimeOutcome(R) ==
-  IF R.off.k = "z" THEN Reject("utc-designator-on-plain-type")
-  ELSE IF CalStatus(R) = "alias" THEN Unasserted("calendar-alias")
-  ELSE IF CalStatus(R) = "unknown" THEN Reject("unknown-calendar")
-  ELSE IF ~DateTimeInRange(DFC(R.date), R.time) THEN Reject("date-time-outside-limits")
-  ELSE Accept([y |-> R.date.y, m |-> R.date.m, d |-> R.date.d, cal |-> CalId(R)] @@ TimeVal(R.time))
-TimeOutcome(R) ==
-  IF R.form = "dt" /\ ~R.time.has THEN Reject("time-string-without-time")
-  ELSE IF R.off.k = "z" THEN Reject("utc-designator-on-plain-type")
-  ELSE Accept(TimeVal(R.time))
-YearMonthOutcome(R) ==
-  IF R.off.k = "z" THEN Reject("utc-designator-on-plain-type")
-  ELSE IF R.form = "ym" /\ ~IsIso(R) THEN Reject("non-iso-calendar-on-year-month-string")
-  ELSE IF CalStatus(R) = "alias" THEN Unasserted("calendar-alias")
-  ELSE IF CalStatus(R) = "unknown" THEN Reject("unknown-calendar")
-  ELSE IF ~YMInRange(R.date.y, R.date.m) THEN Reject("year-month-outside-limits")
-  ELSE IF ~IsIso(R) THEN AcceptNoVal("full-date-with-non-iso-calendar")
-  ELSE Accept([y |-> R.date.y, m |-> R.date.m, cal |-> "iso8601"])
-MonthDayOutcome(R) ==
-  IF R.off.k = "z" THEN Reject("utc-designator-on-plain-type")
-  ELSE IF R.form = "md" /\ ~IsIso(R) THEN Reject("non-iso-calendar-on-month-day-string")
-  ELSE IF CalStatus(R) = "alias" THEN Unasserted("calendar-alias")
-  ELSE IF CalStatus(R) = "unknown" THEN Reject("unknown-calendar")
-  ELSE IF R.form = "dt" /\ ~InDateRange(DFC(R.date)) THEN Unasserted("month-day-from-date-outside-limits")
-  ELSE IF ~IsIso(R) THEN AcceptNoVal("full-date-with-non-iso-calendar")
-  ELSE Accept([m |-> R.date.m, d |-> R.date.d, cal |-> "iso8601"])
-InstantOutcome(R) ==
-  IF ~R.time.has THEN Reject("instant-without-time")
-  ELSE IF R.off.k = "none" THEN Reject("instant-without-offset")
-  ELSE LET o == R.off
-           b == IF o.k = "z" THEN EpochNs(DFC(R.date), Sod(R.time), R.time.fr, 0, 0)
-                ELSE EpochNs(DFC(R.date), Sod(R.time), R.time.fr, OffSec(o), OffNs(o))
-       IN IF ~InstantOK(b) THEN Reject("instant-outside-limits") ELSE Accept(b)
-ZonedOutcome(R) ==
-  IF R.tz.k = "none" THEN Reject("zoned-without-time-zone-annotation")
-  ELSE IF CalStatus(R) = "alias" THEN Unasserted("calendar-alias")
-  ELSE IF CalStatus(R) = "unknown" THEN Reject("unknown-calendar")
-  ELSE IF R.tz.k = "name" /\ R.tz.id # Chars("UTC") THEN Unasserted("named-time-zone")
-  ELSE LET zmin == IF R.tz.k = "offset" THEN R.tz.min ELSE 0
-           o == R.off
-           mismatch == o.k = "num" /\ ~(OffSec(o) = zmin * 60 /\ o.fr = 0)
-           b == IF o.k = "z" THEN EpochNs(DFC(R.date), Sod(R.time), R.time.fr, 0, 0)
-                ELSE EpochNs(DFC(R.date), Sod(R.time), R.time.fr, zmin * 60, 0)
-       IN IF mismatch THEN Reject("offset-does-not-match-time-zone")
-          ELSE IF ~InstantOK(b) THEN Reject("instant-outside-limits")
-          ELSE Accept([ns |-> b, tz |-> IF R.tz.k = "offset" THEN Chars(OffsetText(zmin)) ELSE R.tz.id, cal |-> CalId(R)])
-
-\* which production a goal reads the string with
-ParseFor(goal, c) ==
-  CASE goal \in {"PlainDate", "PlainDateTime", "Instant", "ZonedDateTime"} -> ParseDT(c)
-    [] goal = "PlainTime" -> TwoForms(ParseTimeForm(c), c)
-    [] goal = "PlainYearMonth" -> TwoForms(ParseYMForm(c), c)
-    [] goal = "PlainMonthDay" -> TwoForms(ParseMDForm(c), c)
-    [] goal = "Duration" -> ParseDur(c)
-
-\* first production that reads the whole string as some ISO date/time string, else the most informative failure
-AnyIsoForm(c) ==
-  LET dt == ParseDT(c)
-      tm == ParseTimeForm(c)
-      ym == ParseYMForm(c)
-      md == ParseMDForm(c)
-  IN IF dt.ok THEN dt ELSE IF tm.ok THEN tm ELSE IF ym.ok THEN ym ELSE IF md.ok THEN md
-     ELSE IF DateAt(c, 1).ok THEN dt ELSE IF tm.late THEN tm ELSE IF ym.late THEN ym ELSE IF md.late THEN md ELSE Fail("not-an-iso-string")
-TzIdOutcome(c) ==
-  IF Ch(c, 1) \in {"+", "-"} THEN
-    LET o == ParseOffsetStr(c) IN
-    IF ~o.ok THEN Reject(o.why) ELSE IF o.sub THEN Reject("sub-minute-offset-as-time-zone")
-    ELSE Accept([k |-> "offset", min |-> OffMinutes(o), str |-> Chars(OffsetText(OffMinutes(o)))])
-  ELSE IF c = <<"Z">> THEN Unasserted("Z-as-identifier")
-  ELSE IF NameOK(c, 1, Len(c)) THEN Accept([k |-> "name", str |-> c])
-  ELSE Reject(IF NonAscii(c) THEN "non-ascii" ELSE "time-zone-name")
-
-\* ParseTemporalTimeZoneString: an identifier, else any ISO string carrying a bracketed zone, Z or an offset
-TimeZoneOutcome(c) ==
-  LET id == TzIdOutcome(c) IN
-  IF id.kind # "range" THEN id ELSE
-  LET R == AnyIsoForm(c)
-  IN IF ~R.ok THEN Reject(IF R.why = "not-an-iso-string" THEN id.why ELSE R.why)
-     ELSE IF R.tz.k = "offset" THEN Accept([k |-> "offset", min |-> R.tz.min, str |-> Chars(OffsetText(R.tz.min))])
-     ELSE IF R.tz.k = "name" THEN Accept([k |-> "name", str |-> R.tz.id])
-     ELSE IF R.off.k = "z" THEN Accept([k |-> "name", str |-> Chars("UTC")])
-     ELSE IF R.off.k = "num" THEN
-       (IF R.off.sub THEN Reject("sub-minute-offset-as-time-zone")
-        ELSE Accept([k |-> "offset", min |-> OffMinutes(R.off), str |-> Chars(OffsetText(OffMinutes(R.off)))]))
-     ELSE Reject("no-time-zone-in-string")
-
-\* ParseTemporalCalendarString: a calendar identifier, else the calendar annotation of any ISO string (default iso8601)
-CalendarOutcome(c) ==
-  IF LowSeq(c) \in KnownCalChars THEN Accept(LowSeq(c))
-  ELSE IF LowSeq(c) \in AliasCalChars THEN Unasserted("calendar-alias")
-  ELSE LET R == AnyIsoForm(c) IN
-       IF ~R.ok THEN Reject(IF R.why = "not-an-iso-string" THEN "unknown-calendar" ELSE R.why)
-       ELSE IF CalStatus(R) = "alias" THEN Unasserted("calendar-alias")
-       ELSE IF CalStatus(R) = "unknown" THEN Reject("unknown-calendar")
-       ELSE Accept(IF R.cal = <<>> THEN Chars("iso8601") ELSE R.cal)
-
-Outcome(goal, c) ==
-  IF HasMinus(c) THEN Unasserted("U+2212-sign")
-  ELSE IF goal = "UtcOffset" THEN
-    LET o == ParseOffsetStr(c) IN
-    IF ~o.ok THEN Reject(o.why) ELSE IF o.sub THEN Unasserted("sub-minute-utc-offset")
-    ELSE Accept([min |-> OffMinutes(o), str |-> Chars(OffsetText(OffMinutes(o)))])
-  ELSE IF goal = "TimeZoneId" THEN TzIdOutcome(c)
-  ELSE IF goal = "TimeZone" THEN TimeZoneOutcome(c)
-  ELSE IF goal = "MonthCode" THEN
-    LET m == ParseMonthCode(c) IN
-    IF ~m.ok THEN Reject(IF NonAscii(c) THEN "non-ascii" ELSE m.why)
-    ELSE IF m.n < 1 \/ m.n > 13 THEN Unasserted("month-code-number-out-of-1-13")
-    ELSE Accept([str |-> c, n |-> m.n, leap |-> m.leap])
-  ELSE IF goal = "Calendar" THEN CalendarOutcome(c)
-  ELSE LET R == ParseFor(goal, c) IN
-    IF ~R.ok THEN Reject(R.why)
-    ELSE CASE goal = "PlainDate" -> DateOutcome(R)
-           [] goal = "PlainDateTime" -> DateTimeOutcome(R)
-           [] goal = "PlainTime" -> TimeOutcome(R)
-           [] goal = "PlainYearMonth" -> YearMonthOutcome(R)
-           [] goal = "PlainMonthDay" -> MonthDayOutcome(R)
-           [] goal = "Instant" -> InstantOutcome(R)
-           [] goal = "ZonedDateTime" -> ZonedOutcome(R)
-           [] goal = "Duration" -> IF DurValid(R.dur) THEN Accept(R.dur) ELSE Reject("duration-outside-limits")
-
-Accepts(goal, c) == Outcome(goal, c).kind = "ok"
-Value(goal, c) == Outcome(goal, c).val
-\* what replay / trace validation compare with: kind and (where computed) value
-Expected(goal, c) == LET o == Outcome(goal, c) IN
-                     IF o.kind = "ok" /\ "val" \in DOMAIN o THEN [kind |-> "ok", val |-> o.val] ELSE [kind |-> o.kind]
-
-\* does an observed outcome agree with what the specification expects? (unasserted: any orderly outcome)
-Agrees(x, out) == IF x.kind = "any" THEN out.kind \in {"ok", "range", "type", "syntax"}
-                  ELSE IF "val" \in DOMAIN x THEN out = x
-                  ELSE out.kind = x.kind
-
-\* feature label of a string the specification ACCEPTS (used in class labels when the implementation disagrees)
-Feature(goal, c) ==
-  IF goal \in {"UtcOffset", "TimeZoneId", "MonthCode"} THEN "accepted"
-  ELSE LET R == IF goal \in {"TimeZone", "Calendar"} THEN AnyIsoForm(c) ELSE ParseFor(goal, c) IN
-    IF ~R.ok THEN "identifier"
-    ELSE IF goal = "Duration" THEN
-      (IF \E f \in {R.dur.y, R.dur.mo, R.dur.w} : Abs(f) = Sub(Two32, FromInt(1)) THEN "field-of-4294967295"
-       ELSE IF R.fr = 5 THEN "fractional-hours" ELSE IF R.fr = 6 THEN "fractional-minutes" ELSE IF R.fr = 7 THEN "fractional-seconds" ELSE "integer-units")
-    ELSE IF goal \in {"PlainYearMonth", "PlainMonthDay"} /\ R.form = "dt" /\ ~IsIso(R) THEN "full-date-form-non-iso-calendar"
-    ELSE IF goal = "PlainMonthDay" /\ R.form = "dt" THEN "full-date-form"
-    ELSE IF R.tz.k = "name" /\ \A k \in 1..Len(R.tz.id) : R.tz.id[k] \in AKeyChar THEN "time-zone-name-of-annotation-key-characters"
-    ELSE IF R.k1 THEN "annotation-key-of-one-character"
-    ELSE IF R.v1 THEN "annotation-value-of-one-character"
-    ELSE IF R.vc1 THEN "annotation-value-with-one-character-component"
-    ELSE IF goal = "ZonedDateTime" /\ R.off.k = "z" THEN "utc-designator-with-time-zone-annotation"
-    ELSE IF goal = "ZonedDateTime" /\ R.off.k = "num" /\ R.off.m # 0 THEN "offset-with-non-zero-minutes"
-    ELSE IF goal = "ZonedDateTime" /\ R.off.k = "num" /\ R.off.sub THEN "offset-with-seconds"
-    ELSE IF R.time.has /\ R.time.s = 60 THEN "second-60"
-    ELSE IF R.form \in {"dt", "ym"} /\ (R.date.y < -271820 \/ R.date.y > 275759) THEN "year-at-limit"
-    ELSE R.form \o "-form"
-\* class label of one parser observation: type / reason the specification rejects, or type / accepted-feature
-ParseCls(goal, c) == LET o == Outcome(goal, c) IN
-                     goal \o "/" \o (IF o.kind = "ok" THEN "accepts:" \o Feature(goal, c) ELSE o.why)
-
+(* The token-level string generator (state machine) on top of the recognizer operators of GrammarOps. *)
+EXTENDS GrammarOps
 (* ======================= Part 3: token-level generator ======================= *)
 (* A string is assembled slot by slot. Every slot offers options <<text, cost, mutation class, field updates>>.   *)
 (* Cost 0 = the canonical choice; a behaviour may spend at most Budget on deviations, at most one of which is a  *)
